@@ -162,6 +162,7 @@ func (c *Checker) finish(evidPath string) int {
 		}
 	}
 	nAssumed := 0
+	usedAssumed := map[string]bool{}
 	sort.SliceStable(c.obs, func(i, j int) bool { return c.obs[i].Key() < c.obs[j].Key() })
 	var bad []Obligation
 	nProved, nKnown := 0, 0
@@ -176,6 +177,7 @@ func (c *Checker) finish(evidPath string) int {
 				o.Status = "assumed-safe"
 				o.Detail = "hand argument: " + arg
 				nAssumed++
+				usedAssumed[o.Key()] = true
 			} else if f, ok := known[o.Key()]; ok && o.Status == "violated" {
 				o.Status = "known"
 				nKnown++
@@ -188,6 +190,11 @@ func (c *Checker) finish(evidPath string) int {
 	}
 	// a listed finding that no longer fires is reported (not an error): the
 	// file is never modified at run time
+	for k := range assumed {
+		if !usedAssumed[k] {
+			fmt.Printf("NOTE: assumed-safe entry not needed (site proved or gone): %s\n", k)
+		}
+	}
 	for k := range known {
 		if !usedKnown[k] {
 			fmt.Printf("NOTE: listed finding no longer reproduced: %s\n", k)
